@@ -590,8 +590,148 @@ func runC08(r *Report, rng *rand.Rand, thorough bool) {
 			}
 		}
 	}
+	// ---- parameter schemas: a parameter of every location (path, query, header, cookie) whose schema is a table row, an inline
+	// enum over a table row, or a reference. The argument (path) or the member of the parameter object (elsewhere) has the
+	// table's type; an inline enum gets a named type that IS DECLARED in the file with the table's type under it, and constants
+	{
+		type pclass struct {
+			label, t, f string
+			enum        []any
+			ref         bool
+		}
+		classes := []pclass{
+			{"plain", "string", "", nil, false}, {"plain", "integer", "", nil, false}, {"plain", "integer", "int64", nil, false}, {"plain", "integer", "uint32", nil, false},
+			{"plain", "number", "double", nil, false}, {"plain", "boolean", "", nil, false}, {"plain", "string", "uuid", nil, false}, {"plain", "string", "date", nil, false},
+			{"enum", "string", "", []any{"daily", "weekly"}, false}, {"enum", "integer", "int32", []any{1, 2, 3}, false}, {"enum", "integer", "", []any{10, 20}, false},
+			{"ref", "string", "", nil, true},
+		}
+		coqT := map[string]string{"integer": "TInteger", "number": "TNumber", "boolean": "TBoolean", "string": "TString"}
+		for _, loc := range []string{"path", "query", "header", "cookie"} {
+			for _, c := range classes {
+				sch := map[string]any{"type": c.t}
+				if c.f != "" {
+					sch["format"] = c.f
+				}
+				if c.enum != nil {
+					sch["enum"] = c.enum
+				}
+				if c.ref {
+					sch = map[string]any{"$ref": "#/components/schemas/Colour"}
+				}
+				params := []any{map[string]any{"name": "x", "in": loc, "required": true, "schema": sch}}
+				path := "/r"
+				if loc == "path" {
+					path = "/r/{x}"
+				}
+				spec, _ := json.Marshal(map[string]any{"openapi": "3.0.3", "info": map[string]any{"title": "c", "version": "1"},
+					"paths": map[string]any{path: map[string]any{"get": map[string]any{"operationId": "getR", "parameters": params, "responses": map[string]any{"204": map[string]any{"description": "d"}}}}},
+					"components": map[string]any{"schemas": map[string]any{"Colour": map[string]any{"type": "string", "enum": []string{"red", "blue"}}}}})
+				cfg := codegen.Configuration{PackageName: "gen", Generate: codegen.GenerateOptions{Models: true, EchoServer: true}}
+				replay := map[string]any{"spec": json.RawMessage(spec), "location": loc, "class": c.label, "type": c.t, "format": c.f}
+				label := fmt.Sprintf("parameter/%s/%s/%s/%s", loc, c.label, c.t, c.f)
+				r.Count(label, true)
+				r.Dist["parameter_position="+loc]++
+				code, err := generate(spec, cfg)
+				if err != nil {
+					r.Violate("parameter_schema_generate_error", label+": "+trunc(err.Error(), 200), replay)
+					continue
+				}
+				p, err := parseGo(code)
+				if err != nil {
+					r.Violate("parameter_schema_generate_error", label+": output does not parse: "+trunc(err.Error(), 200), replay)
+					continue
+				}
+				got := ""
+				if loc == "path" {
+					got = interfaceMethodParamType(p, "ServerInterface", "GetR", "x")
+				} else {
+					fields, _ := structFields(p, "GetRParams")
+					for _, f := range fields {
+						if f.GoName == "X" {
+							got = f.Type
+						}
+					}
+				}
+				decls := map[string]string{}
+				for _, d := range p.file.Decls {
+					if gd, ok := d.(*ast.GenDecl); ok && gd.Tok == token.TYPE {
+						for _, sp := range gd.Specs {
+							ts := sp.(*ast.TypeSpec)
+							decls[ts.Name.Name] = nodeSrc(p.fset, ts.Type)
+						}
+					}
+				}
+				under := got
+				switch c.label {
+				case "ref":
+					if got != "Colour" || decls["Colour"] != "string" {
+						r.Violate("parameter_schema_type", fmt.Sprintf("%s: a parameter that refers to the enum component Colour has type %q (Colour declared as %q)", label, got, decls["Colour"]), replay)
+					}
+					continue
+				case "enum":
+					rhs, declared := decls[got]
+					if !declared {
+						r.Violate("parameter_schema_type", fmt.Sprintf("%s: the parameter has type %q, which the file does not declare", label, got), replay)
+						continue
+					}
+					under = rhs
+					nconst := 0
+					for _, d := range p.file.Decls {
+						if gd, ok := d.(*ast.GenDecl); ok && gd.Tok == token.CONST {
+							for _, sp := range gd.Specs {
+								if id, ok := sp.(*ast.ValueSpec).Type.(*ast.Ident); ok && id.Name == got {
+									nconst++
+								}
+							}
+						}
+					}
+					if nconst != len(c.enum) {
+						r.Violate("parameter_schema_type", fmt.Sprintf("%s: enum type %s has %d constants for %d values", label, got, nconst, len(c.enum)), replay)
+					}
+				}
+				tcases.Add(fmt.Sprintf("(%s, %s, (Some %s))", coqT[c.t], gendoc.CoqStr(c.f), gendoc.CoqStr(under)), replay)
+				if want, ok := docTable[c.t+"/"+c.f]; ok && under != want {
+					r.Violate("parameter_schema_type", fmt.Sprintf("%s: rendered as %q (underlying %q), documentation says %s", label, got, under, want), replay)
+				}
+			}
+		}
+	}
 	fcases.WriteTo(r)
 	tcases.WriteTo(r)
 	r.Exhaustive = true
-	r.Rule = "exhaustive: every cell of required x nullable x readOnly x writeOnly x x-go-type-skip-optional-pointer {absent,true,false} x x-omitempty {absent,true,false} x x-go-json-ignore {absent,true,false} (432 cells) x disable-required-readonly-as-pointer x nullable-type (4 option sets) generated as one struct per option set, every field's type wrapper and json tag read back with go/parser and compared with the model in Coq and, for extension-free cells, with the documented rules; every (type, format) pair over 4 types x 23 formats incl. unknown ones vs the model's table and the documented rows; arrays / maps / free-form objects / $ref; x-go-name (CamelCase, snake_case and lowerCamel values), x-go-type-skip-optional-pointer through a reference / an allOf wrapper / as false on format json, x-go-type(+import), x-oapi-codegen-extra-tags, x-order, x-deprecated-reason must change exactly their own component (compared on the AST); the type-alias switches (default, disable-type-aliases-for-type: [array], old-aliasing) over named array / primitive / $ref / enum / object types and an inline array request body: alias or defined type and the underlying type of every declaration; non-trivial = a cell with an extension or option"
+	r.Rule = "exhaustive: every cell of required x nullable x readOnly x writeOnly x x-go-type-skip-optional-pointer {absent,true,false} x x-omitempty {absent,true,false} x x-go-json-ignore {absent,true,false} (432 cells) x disable-required-readonly-as-pointer x nullable-type (4 option sets) generated as one struct per option set, every field's type wrapper and json tag read back with go/parser and compared with the model in Coq and, for extension-free cells, with the documented rules; every (type, format) pair over 4 types x 23 formats incl. unknown ones vs the model's table and the documented rows; parameters of every location (path argument, member of the parameter object for query / header / cookie) over eight table rows, inline enums over three rows (the named type declared with the row's type under it, one constant per value) and a referenced enum; arrays / maps / free-form objects / $ref; x-go-name (CamelCase, snake_case and lowerCamel values), x-go-type-skip-optional-pointer through a reference / an allOf wrapper / as false on format json, x-go-type(+import), x-oapi-codegen-extra-tags, x-order, x-deprecated-reason must change exactly their own component (compared on the AST); the type-alias switches (default, disable-type-aliases-for-type: [array], old-aliasing) over named array / primitive / $ref / enum / object types and an inline array request body: alias or defined type and the underlying type of every declaration; non-trivial = a cell with an extension or option"
+}
+
+// interfaceMethodParamType returns the type of the named parameter of a method of an interface type ("" if absent).
+func interfaceMethodParamType(p *parsed, iface, method, param string) string {
+	for _, d := range p.file.Decls {
+		gd, ok := d.(*ast.GenDecl)
+		if !ok {
+			continue
+		}
+		for _, s := range gd.Specs {
+			ts, ok := s.(*ast.TypeSpec)
+			if !ok || ts.Name.Name != iface {
+				continue
+			}
+			it, ok := ts.Type.(*ast.InterfaceType)
+			if !ok {
+				return ""
+			}
+			for _, m := range it.Methods.List {
+				ft, ok := m.Type.(*ast.FuncType)
+				if !ok || len(m.Names) != 1 || m.Names[0].Name != method {
+					continue
+				}
+				for _, f := range ft.Params.List {
+					for _, n := range f.Names {
+						if n.Name == param {
+							return nodeSrc(p.fset, f.Type)
+						}
+					}
+				}
+			}
+		}
+	}
+	return ""
 }
